@@ -4,6 +4,8 @@ import TongoProofs.Lemmas.HashMemo
 import TongoProofs.Lemmas.CellNoPanic
 import TongoProofs.Lemmas.CellErr
 import TongoProofs.Lemmas.CellCursor
+import TongoProofs.Lemmas.CellHashInj
+import TongoProofs.Lemmas.Sha256Len
 import TongoProofs.C07
 import TongoGen.LevelMask
 import TongoGen.CellDesc
@@ -257,6 +259,35 @@ theorem hash_ignores_reads (H : List UInt8 → List UInt8) (a b : Cursor.RCell) 
   have e := Cursor.reads_content h
   exact ⟨e, by rw [e], by rw [e]⟩
 
+/-- **The representation hash determines the tree** (what makes `HashString()` usable as a de-duplication key, C01, and
+a Merkle proof binding, C18). For two trees satisfying the exotic-cell rules — all five types, masks ≤ 7, Merkle
+proofs with their mask-1 cells and pruned branches included — if `H` has 32-byte digests and is collision-free on the
+finite list of byte strings that are hashed for the two trees (`Spec.allReprs`: the representations of the computed
+levels of all sub-cells), then equal representation hashes imply equal trees. Induction over the tree and the levels:
+the top-level representation carries ref count, exotic flag and the full mask (first descriptor byte), the length
+class (second), the hash one level down — down to level 0, which carries the data with its completion tag — and the
+children's hashes at the child level, which are the children's own representation hashes because consistent masks
+bound a child's level. The exotic type is fixed by the bit lengths the rules prescribe. A pruned branch is identified
+by its own data: it is NOT identified with the tree it stands for (pruned cells are cells). -/
+theorem reprHash_inj_wfExotic (H : List UInt8 → List UInt8) (hlen : ∀ x, (H x).length = 32) (a b : Cell)
+    (ha : Spec.WFExotic a) (hb : Spec.WFExotic b)
+    (cf : CollisionFree H (Spec.allReprs H a ++ Spec.allReprs H b))
+    (h : Spec.reprHash H a = Spec.reprHash H b) : a = b :=
+  CellHashLemmas.reprHash_inj_wfExotic H hlen a b ha hb cf h
+
+/-- the same for the implementation model: if `Cell.Hash()` returns the same bytes for two well-formed trees within
+the depth limit, they are the same tree -/
+theorem cell_hash_inj (H : List UInt8 → List UInt8) (hlen : ∀ x, (H x).length = 32) (a b : Cell)
+    (ha : Spec.WFExotic a) (hb : Spec.WFExotic b) (da : Spec.tooDeep a = false) (db : Spec.tooDeep b = false)
+    (cf : CollisionFree H (Spec.allReprs H a ++ Spec.allReprs H b))
+    (h : Cell.reprHash H a = Cell.reprHash H b) : a = b := by
+  rw [reprHash_eq_spec H a ha da, reprHash_eq_spec H b hb db] at h
+  injection h with h
+  exact reprHash_inj_wfExotic H hlen a b ha hb cf h
+
+/-- the hash function of the driver has 32-byte digests: the `hlen`/`H32` hypothesis holds for the real SHA-256 -/
+theorem sha256_len32 : ∀ x, (sha256 x).length = 32 := Sha256Lemmas.sha256_length
+
 /-- **The hash is structural.** Two pointers — in any two heaps, with any two valid memo tables — that denote the same
 tree `(type, mask, bits, refs…)` get the same answer: the result is a function of the tree alone (no read cursor, no
 pointer identity, no table content enters it). -/
@@ -423,6 +454,14 @@ example : Cursor.Reads
   .step (.bits 0 0 _ _ 0 (.readUint 5) rfl (by decide) (by decide +kernel))
     (.step (.bits 0 0 _ _ 0 (.readBits 300) rfl (by decide) (by decide +kernel))
       (.step (.refCursor 0 0 _ _ 0 1) (.refl _)))
+
+/-- non-vacuity of `reprHash_inj_wfExotic` (TEST on literals, real SHA-256 in the kernel): collision-freedom holds on
+the representations of a real-shaped pruned branch and an ordinary leaf -/
+example : Spec.WFExotic exPruned ∧ Spec.WFExotic (.mk tyOrdinary 0 [true] []) ∧
+    CollisionFree sha256 (Spec.allReprs sha256 exPruned ++ Spec.allReprs sha256 (.mk tyOrdinary 0 [true] [])) := by
+  refine ⟨by decide +kernel, by decide +kernel, ?_⟩
+  unfold CollisionFree
+  decide +kernel
 
 /-! Merkle updates with pruned branches on both sides (the `state_update` of a real block): `WFExotic` admits them
 (two refs, `04 hash hash depth depth`, mask = (mask₁ ∨ mask₂) >> 1), so `impl_eq_spec` applies. -/
